@@ -14,7 +14,7 @@ RULE = (
     "case = (model spec, alpha, n_points, IFORM|ISORM). Specs: all 32 conditional_on structures of n_dim 2..4 "
     "(conditional_on[i] in {None,0..i-1}) x random shipped families x random admissible dependence shapes (incl. "
     "scalar-returning constants, default-argument functions, the chained alpha3 shape); alpha log-uniform on [1e-8,0.5] plus "
-    "both ends; n_points in {3,4,5,7,12,50,180}. The monitor on IFORMContour._compute / ISORMContour._compute maps every "
+    "both ends; n_points in {3,4,5,7,12,50,180} plus 2-D sweeps over hundreds of consecutive / random point counts up to 2000. The monitor on IFORMContour._compute / ISORMContour._compute maps every "
     "contour point back through the model's OWN cdfs and through the independent reference model and checks radius, "
     "direction, point count, distinct directions, 2-D angles and the 2-D IFORM maximum. Non-trivial = beta > 0 and at least "
     "one conditional variable; distinct = distinct (spec signature, alpha, n_points, method)."
@@ -51,6 +51,14 @@ def gen_cases(tier, seed):
                 if len(st) > 2 and tier == "quick" and npts == 180 and sub.random() < 0.7:
                     npts = 50
                 cases.append({"spec": spec, "alpha": alpha, "n_points": npts, "method": method, "cost": 1 + (npts / 60.0) ** 2 * (len(st) > 2)})
+    # 2-D point-count sweeps: the 2-D angle grid is built from n_points directly, so every count is its own input class
+    n_sweeps = 4 if tier == "quick" else 40
+    for k in range(n_sweeps):
+        sub = np.random.default_rng(int(rng.integers(1 << 62)))
+        spec = S.gen_spec(sub, structure=[None, 0] if k % 2 else [None, None])
+        lo = 3 + (k % 4) * 100
+        counts = list(range(lo, lo + 100)) if tier == "quick" else list(range(3, 1000)) if k % 10 == 0 else sorted(set(int(v) for v in sub.integers(3, 2000, 150)))
+        cases.append({"spec": spec, "alpha": float(10 ** sub.uniform(-6, -1)), "n_points": counts[0], "n_points_sweep": counts, "method": "iform" if k % 3 else "isorm", "cost": 3})
     # the shipped test model and the OMAE V-Hs structure as fixed members
     for sp_ in (S.spec_seastate(), S.spec_omae_vhs()):
         for method in ("iform", "isorm"):
@@ -264,6 +272,11 @@ def run_case(case, ctx):
         ctx.cls("family:" + d["fam"], True)
     ctx.cls("method", case["method"])
     cls = IFORMContour if case["method"] == "iform" else ISORMContour
+    for npts in case.get("n_points_sweep", [])[1:]:
+        cls(model, case["alpha"], n_points=int(npts))  # judged by the monitor
+    if case.get("n_points_sweep"):
+        ctx.cls("n_points-sweep", f"{case['n_points_sweep'][0]}..{case['n_points_sweep'][-1]}")
+        ctx.count("c01.sweep-contours", len(case["n_points_sweep"]))
     con = cls(model, case["alpha"], n_points=case["n_points"])
     ctx.sig = f"{S.spec_signature(spec)}|{case['alpha']:.6g}|{case['n_points']}|{case['method']}"
     ctx.nontrivial = case["alpha"] < 0.5 and any(d.get("cond") is not None for d in spec["dims"])
